@@ -165,9 +165,24 @@ def iterN (step : List Name → List Name) : Nat → List Name → List Name
 /-- `cs` is closed under `f` -/
 def closedWith (f : Name → List Name) (cs : List Name) : Bool := cs.all fun c => (f c).all fun x => decide (x ∈ cs)
 
+/-- the outcome `d` of task `c` is a failure found DURING its execution (`Task.execute` ran): the actions failed, or
+    `save_success` did.  A failure of kind `depErr` also arises in `select_task` (`get_status` error, `getargs`
+    error), before any action runs; the oracle tells the two apart. -/
+def startedFail (inp : RunInput) (c : Name) : Den → Bool
+  | .fail .failed => true
+  | .fail .error => true
+  | .fail .depErr => decide (inp.statusOf c ≠ .error) && inp.argsOk c
+  | _ => false
+
+/-- what the calc task `c` delivers to the tasks that have it as calc_dep when its outcome is `d`: `calcRes c` when it
+    was executed successfully or is up-to-date, `calcResFail c` (what its actions returned before the failing one) when
+    it failed during its execution, nothing otherwise -/
+def delivOf (inp : RunInput) (c : Name) (d : Den) : CalcRes :=
+  if d.rs.good then inp.calcRes c else if startedFail inp c d then inp.calcResFail c else {}
+
 /-- what calc_dep `c` contributes to the calc_dep set of the task that has it, under the outcomes `dd` -/
 def calcOut (inp : RunInput) (dd : Name → Den) (c : Name) : List Name :=
-  if (dd c).rs.good then (inp.calcRes c).calcs else []
+  (delivOf inp c (dd c)).calcs
 
 /-- the calc_deps of `n` under the outcomes `dd`, `k` rounds -/
 def calcsF (inp : RunInput) (dd : Name → Den) (k : Nat) (n : Name) : List Name :=
@@ -175,7 +190,7 @@ def calcsF (inp : RunInput) (dd : Name → Den) (k : Nat) (n : Name) : List Name
 
 /-- what calc_dep `c` delivers as task_deps -/
 def taskOut (inp : RunInput) (dd : Name → Den) (c : Name) : List Name :=
-  if (dd c).rs.good then (inp.calcRes c).tasks ++ (inp.calcRes c).files else []
+  (delivOf inp c (dd c)).tasks ++ (delivOf inp c (dd c)).files
 
 /-- the dependency list of `n` under the outcomes `dd` (`none`: `k` rounds did not close the calc_dep set) -/
 def depsF (inp : RunInput) (dd : Name → Den) (k : Nat) (n : Name) : Option (List Name) :=
